@@ -269,13 +269,13 @@ def analyse_add_error() -> dict:
     se = ("call", "str", (err,), ())
     gs = nf.guards_in_ctx(actx)
     ok = False
-    if len(gs) == 1 and gs[0][1] is False and gs[0][0][0] == "cmp" and gs[0][0][1] == "In" and gs[0][0][2] == se:
-        coll = gs[0][0][3]
-        o = I.obj(coll)
-        segs = nf.list_content(I, coll, tree) if isinstance(o, HList) else []
-        if len(segs) == 1 and segs[0][0] == "loop":
-            lid = segs[0][1]
-            ok = I.loops[lid].get("iter") == errs and segs[0][2] == [("e", ("call", "str", (("elem", lid),), ()))] and not I.loops[lid].get("conds")
+    if len(gs) == 1 and gs[0][1] is False:
+        # "no collected error has the same str()": membership test, any(), or a scanning helper
+        ex = nf.exists_form(I, gs[0][0], tree)
+        if ex is not None:
+            it, lid, pred = ex
+            el = ("call", "str", (("elem", lid),), ())
+            ok = it == errs and pred in (("cmp", "Eq", el, se), ("cmp", "Eq", se, el))
     if not ok and not gs:
         # loop form: for known in errors: if str(known) == str(error): return
         loops = [(n, c) for n, c in nf.iter_nodes(tree) if n[0] == "loop" and not nf.loops_in_ctx(c)]
@@ -506,6 +506,15 @@ class ParseNF:
         if info.get("kind") != "while":
             return (loop, None, "not a while loop")
         breaks = [(n, cc) for n, cc in nf.iter_nodes(loop[2]) if n[0] == "break" and not nf.loops_in_ctx(cc)]
+        # the loop may live in a generator fused into parse(): a ``return`` of that generator at the loop's own call
+        # depth leaves the loop like a break, provided nothing follows the loop in the generator
+        calls = [x for x in c if x[0] == "call"]
+        if calls:
+            host = next((n for n, cc in self.flat if n[0] == "call" and len(n) > 4 and n[4] == calls[-1][2]), None)
+            tail_free = host is not None and host[2] and host[2][-1] is loop
+            if tail_free:
+                breaks += [(n, cc) for n, cc in nf.iter_nodes(loop[2]) if n[0] == "return" and not nf.loops_in_ctx(cc)
+                           and not any(x[0] == "call" for x in cc)]
         if is_const(test, True):
             if len(breaks) != 1:
                 return (loop, None, f"{len(breaks)} break(s)")
